@@ -40,20 +40,37 @@ def _as_float(c):
     import struct
     return struct.unpack("<d", struct.pack("<Q", b.as_long()))[0]
 
-def equal_up_to_rounding(a, ka, b, kb):
-    """'the same values ... up to floating-point rounding': on concrete float results (real build) a relative tolerance of 1e-9,
-    and results that are both below 1e-290 in magnitude count as equal; symbolic results must be identical (they are the same
-    uninterpreted reducer on both sides)"""
+def equal_up_to_rounding(a, ka, b, kb, scale=0.0):
+    """'the same values ... up to floating-point rounding': on concrete float results (real build) a tolerance of 1e-9 relative to
+    the larger of the results and of the group's input values (`scale`: an interpolation weight or a partial sum rounded at
+    1 ulp moves the result by about 1e-16 times the size of the DATA, however small the result itself is), and results that are
+    both below 1e-290 in magnitude count as equal; symbolic results must be identical (they are the same uninterpreted
+    reducer on both sides)"""
     if ka == "f" and kb == "f":
         x, y = _as_float(a), _as_float(b)
         if x is not None and y is not None and x == x and y == y and abs(x) != float("inf") and abs(y) != float("inf"):
             m = max(abs(x), abs(y))
-            return T(x == y or abs(x - y) <= 1e-9 * m or m < 1e-290)
+            return T(x == y or abs(x - y) <= 1e-9 * max(m, scale) or m < 1e-290)
         # symbolic: the same number (NaN with NaN; -0.0 and 0.0 are the same value, as in the concrete comparison above)
         return z3.Or(z3.And(z3.fpIsNaN(a), z3.fpIsNaN(b)), z3.fpEQ(a, b))
     return summary_equal(a, ka, b, kb)
 
-def same_frames(on, off, label):
+def data_scale(step):
+    """largest magnitude among the concrete numeric input values of an aggregation step (0.0 while they are symbolic)"""
+    big = 0.0
+    x = step.get("x") if isinstance(step, dict) else None
+    for c in (getattr(x, "cells", None) or []):
+        e = z3.simplify(c) if z3.is_expr(c) else None
+        try:
+            if e is not None and z3.is_bv_value(e): v = float(abs(e.as_signed_long()))
+            elif e is not None and z3.is_fp_value(e): v = _as_float(e)
+            else: continue
+        except Exception:
+            continue
+        if v is not None and v == v and abs(v) != float("inf"): big = max(big, abs(v))
+    return big
+
+def same_frames(on, off, label, scale=0.0):
     if isinstance(on, Raised) or isinstance(off, Raised):
         return [(f"{label}: neither run raises (on: {on if isinstance(on, Raised) else 'ok'}, off: {off if isinstance(off, Raised) else 'ok'})", T(False))]
     cl = [(f"{label}: same columns", T(on.names == off.names))]
@@ -65,7 +82,7 @@ def same_frames(on, off, label):
         if len(a) != len(b): continue
         for j in range(len(a)):
             cl.append((f"{label}: {nm}[{j}] same value / missing position with Numba on and off",
-                       equal_up_to_rounding(a.cells[j], kind_of(a), b.cells[j], kind_of(b))))
+                       equal_up_to_rounding(a.cells[j], kind_of(a), b.cells[j], kind_of(b), scale)))
     return cl
 
 class OnOff(Harness):
@@ -107,7 +124,7 @@ class OnOff(Harness):
         return []
     def spec(self, inp, out):
         if isinstance(out, Raised): return [(f"does not raise ({out.type}: {out.msg[:80]})", T(False))]
-        return same_frames(out["on"][0], out["off"][0], self.helper)
+        return same_frames(out["on"][0], out["off"][0], self.helper, data_scale(inp["steps"][0]))
 
 class SameCall(Harness):
     """'whatever aggregations were run before it, in the same call': a helper, then an order-sensitive helper on the
@@ -135,7 +152,7 @@ class SameCall(Harness):
         return {"numba-none-list-kernel-compiled-after-minmax": T(hit)}
     def spec(self, inp, out):
         if isinstance(out, Raised): return [(f"does not raise ({out.type}: {out.msg[:80]})", T(False))]
-        return same_frames(out["on"][0], out["off"][0], f"{self.first} then {self.then}")
+        return same_frames(out["on"][0], out["off"][0], f"{self.first} then {self.then}", data_scale(inp["steps"][0]))
 
 class Order(Harness):
     """history clause, observed only: several helpers first used in a given order inside one fresh process"""
@@ -178,7 +195,7 @@ class Order(Harness):
         if isinstance(out, Raised): return [(f"does not raise ({out.type}: {out.msg[:80]})", T(False))]
         cl = []
         for j, st in enumerate(inp["steps"]):
-            cl += same_frames(out["on"][j], out["off"][j], f"step {j} ({st['helper']})")
+            cl += same_frames(out["on"][j], out["off"][j], f"step {j} ({st['helper']})", data_scale(st))
         return cl
 
 def harnesses(tier):
